@@ -7,11 +7,14 @@ Input line:
    "dump":{"text":str}|{"fail":kind}, "wr":{"open":bool,"write":bool}, "validate_ok":bool,
    "subs":[{"path":str,"kind":"cfg"|"content","text":{..},"src":str,"read_ok":bool,"wr":{..}},...]}
 `null`/absent overwrite and multifile mean "keyword not passed" (the model's defaults).
-Output line: {"outcome":"ok"|kind, "fs":[[path,content],...], "early":bool}
+"env" may hold "links":[[spelling,resolved],...]: every target goes through `Env.resolve` (`saveR`).
+A line with "branch":"fsspec" (+ "probe_ok":bool) runs `saveFsspec` instead.
+Output line: {"outcome":"ok"|kind, "fs":[[path,content],...], "early":bool, "written":nat}
 -/
 import Lean.Data.Json
 import Jap.Core.Save
 import Jap.Lemmas.Save
+import Jap.Lemmas.SavePartial
 
 open Lean Jap.Save
 
@@ -45,6 +48,7 @@ def errOfString : String → Err
   | "invalid" => .invalid
   | "unserialisable" => .unserialisable
   | "os" => .os
+  | "notImplemented" => .notImplemented
   | _ => .io
 
 def errToString : Err → String
@@ -55,6 +59,7 @@ def errToString : Err → String
   | .unserialisable => "unserialisable"
   | .os => "os"
   | .io => "io"
+  | .notImplemented => "notImplemented"
 
 def outcomeOf (j : Json) : Outcome :=
   match j.getObjVal? "text" with
@@ -76,10 +81,37 @@ def fsOf (j : Json) : FS :=
     | .arr #[.str p, .str c] => some (p, c)
     | _ => none
 
+def linksOf (j : Json) : List (String × String) :=
+  (getArr j "links").filterMap fun x => match x with
+    | .arr #[.str p, .str c] => some (p, c)
+    | _ => none
+
+def outJson (r : Result) (early : Bool) (written : Nat) : Json :=
+  let out := match r.1 with
+    | .ok _ => "ok"
+    | .error x => errToString x
+  Json.mkObj [("outcome", .str out),
+              ("fs", .arr (r.2.map fun pc => Json.arr #[.str pc.1, .str pc.2]).toArray),
+              ("early", .bool early), ("written", .num written)]
+
+def stepFsspec (j : Json) : Json :=
+  let dflt : FInput := { path := "", dump := .text "" }
+  let i : FInput :=
+    { path := getStr j "path",
+      overwrite := getBoolD j "overwrite" dflt.overwrite,
+      multifile := getBoolD j "multifile" dflt.multifile,
+      formatOk := getBoolD j "format_ok" true,
+      probeOk := getBoolD j "probe_ok" true,
+      dump := outcomeOf (getObj j "dump"),
+      wr := wrOf (getObj j "wr") }
+  outJson (saveFsspec (fsOf j) i) (!i.formatOk || !i.probeOk) 0
+
 def step (j : Json) : Json :=
+  if getStr j "branch" == "fsspec" then stepFsspec j else
   let dflt : Input := { path := "", dump := .text "" }
   let e := getObj j "env"
-  let env : Env := { noParent := getStrs e "noparent", roParent := getStrs e "ro", nonFile := getStrs e "nonfile" }
+  let env : Env := { noParent := getStrs e "noparent", roParent := getStrs e "ro", nonFile := getStrs e "nonfile",
+                     links := linksOf e }
   let fs := fsOf j
   let i : Input :=
     { path := getStr j "path",
@@ -90,13 +122,8 @@ def step (j : Json) : Json :=
       wr := wrOf (getObj j "wr"),
       validateOk := getBoolD j "validate_ok" true,
       subs := (getArr j "subs").map subOf }
-  let r := save env fs i
-  let out := match r.1 with
-    | .ok _ => "ok"
-    | .error x => errToString x
-  Json.mkObj [("outcome", .str out),
-              ("fs", .arr (r.2.map fun pc => Json.arr #[.str pc.1, .str pc.2]).toArray),
-              ("early", .bool (failsByFirstOpen env fs i))]
+  let ir := i.resolved env
+  outJson (saveR env fs i) (failsByFirstOpen env fs ir) (writtenCount env fs ir)
 
 partial def loop (h : IO.FS.Stream) (out : IO.FS.Stream) : IO Unit := do
   let line ← h.getLine
